@@ -91,6 +91,7 @@ func (g *Grammar) eval(e *wl.Expr, rhs []stackEnt) (any, error) {
 func (g *Grammar) Derivation(toks []Tok, recs []RecEvent, totalFetched int) (any, error) {
 	var st []stackEnt
 	shifted := 0
+	g.UsedUnassigned = false
 	shiftTo := func(n int) error {
 		if n > len(toks) {
 			return fmt.Errorf("reduction after %d shifted tokens but the input has %d", n, len(toks))
@@ -124,6 +125,9 @@ func (g *Grammar) Derivation(toks []Tok, recs []RecEvent, totalFetched int) (any
 		}
 		var val any
 		sr := g.Spec.Rules[ev.Rule-1]
+		if sr.Act == nil && g.Spec.NTs[sr.L].Tag != "" {
+			g.UsedUnassigned = true
+		}
 		tag := g.Spec.NTs[sr.L].Tag
 		if tag != "" {
 			switch g.Spec.FieldType(tag) {
@@ -157,10 +161,6 @@ func (g *Grammar) Derivation(toks []Tok, recs []RecEvent, totalFetched int) (any
 			names = append(names, g.Names[e.sym])
 		}
 		return nil, fmt.Errorf("accepted with stack %v instead of [%s]", names, g.Names[g.Start])
-	}
-	if len(recs) > 0 && recs[len(recs)-1].Fetched-1 != len(toks) && len(toks) > 0 {
-		// the last reduction (to the start symbol) must have seen the end marker as lookahead
-		// unless the last token completes the sentence in an LR(0) reduce state - which still needs the end lookahead in LALR(1)
 	}
 	if totalFetched != len(toks)+1 {
 		return nil, fmt.Errorf("accepted after fetching %d tokens; the input has %d and one end marker", totalFetched, len(toks))
